@@ -11,6 +11,12 @@ def M(category, ref, text, note, technique):
 HELD = " Held = no refuting observation on the executions listed in the evidence; nothing is proved."
 
 META = {
+    "C01": M("exploration", "§6 C01",
+        "Runs real crypto/tls clients (two releases: go1.24.0 and go1.26.8 stages) through a recording transport, ech.NewConn with the key set, a router on Conn.ServerName() and real crypto/tls backends without ECH keys (public-name server with keys for stale configs), "
+        "over a covering list plus PRNG fill of curves (forcing real HelloRetryRequests), ALPN lists, names of 1..253 bytes, PSK resumption, client certificates, chains up to 40 KB, key sets, AEADs, stale configs, payloads to 100 KB and transport chunking; "
+        "the oracle combines both ConnectionStates, the backend's ClientHelloInfo, the Conn accessors, echo comparison and a wire tap that confirms HRR / second ClientHello / over-16K records really occurred (floors on each)." + HELD,
+        "The conforming peers are crypto/tls (2 releases); a completed TLS 1.3 handshake is a cryptographic equality check on the forwarded hello. Sampled configurations.",
+        "runtime monitor: end-to-end differential run against real TLS stacks with wire tap and state oracles"),
     "C02": M("exploration", "§6 C02",
         "Takes hellos that ARE accepted (first flights of real crypto/tls clients, and offers sealed by an independent RFC 9180 sender) and runs NewConn on every single-bit flip of each ClientHello body "
         "(exhaustive per hello) plus wrong-key / wrong-info / wrong-suite / wrong-config-id substitutions, enc and payload truncations and payload transplants; acceptance of any modified input, "
@@ -97,6 +103,12 @@ META = {
         "(including the hidden capacity region of every slice) before and after enumeration." + HELD,
         "Order inside one record's contribution follows the input lists; ALPN compared as a set.",
         "runtime monitor: reference-model comparison + deep state snapshot (purity) check"),
+    "C19": M("exploration", "§6 C19",
+        "Drives request sequences of one http.Client over Transport against a fake DoH server, three local TLS servers (HTTP/2, real certificates; two origins share an address and a certificate), a plaintext server and a fake HTTP/3 round-tripper, "
+        "with a DialFunc tap that records arguments and performs real handshakes; server-side logs (connection ids, TLS state, Host), tap logs and a table model of the h3 choice check: no plaintext, http->https upgrade, ServerName = URL host and certificate "
+        "verification against it, original Host, no pooled connection shared across origins, h3 decision, protocol-compatible dial targets, resp.Request identity." + HELD,
+        "Lenient where the statement is silent (https on port 80, address order); CNAMEs and alias loops not generated here (C14).",
+        "runtime monitor: server-side request/connection logs + DialFunc tap against a decision-table model"),
     "C20": M("exploration", "§6 C20",
         "Runs histories of publishes against a fake Cloudflare API (pagination, PATCH merge, failure injection, full request log) and compares results, request log and the stored records with a model store: one result per target in order, "
         "only the ech parameter changed, no PATCH when current, records on later pages found, non-targets untouched, failures isolated." + HELD,
